@@ -96,6 +96,28 @@ def num_gradient(method, grids, values, x, dist, opts=None, rng=None, count=None
     return f, ref, tol, delta
 
 
+class _Spy(object):
+    """Counts the interpolate() calls of one object (instance attribute), so that a gradient() answer can be
+    attributed to the cache or to a recomputation."""
+
+    def __init__(self, it, acc):
+        self.it = it
+        self.acc = acc
+        self.n = 0
+        inner = it.interpolate
+
+        def interpolate(*a, **kw):
+            self.n += 1
+            return inner(*a, **kw)
+        it.interpolate = interpolate
+
+    def gradient(self, x):
+        n0 = self.n
+        g = self.it.gradient(x)
+        self.acc.count('obs:gradient:from-cache' if self.n == n0 else 'obs:gradient:recomputed')
+        return g
+
+
 def _close(a, ref, tol):
     a = np.asarray(a, dtype=float).ravel()
     return a.shape == np.shape(ref) and bool(np.all(np.abs(a - ref) <= tol))
@@ -675,12 +697,16 @@ def _interleave_table(case, acc, rep, C):
                      % (k, n, '+'.join(methods), p, np.asarray(g).ravel().tolist(), ref.tolist()))
 
     try:
-        for o in objs:
+        for k, o in enumerate(objs):
             o['it'] = _mk(o['m'], o['grids'], o['vals'], bool(rng.random() < 0.5), o['opts'])
+            o['spy'] = _Spy(o['it'], acc)
+            # call form: (1, n) arrays (the form for which gradient() can answer from its cache) / 1-D arrays
+            o['form'] = (lambda x: np.array(x, dtype=float).reshape(1, nd)) if (k % 2 == 0 or nd == 1) \
+                else (lambda x: np.array(x, dtype=float))
         kept = []
         # round 1: derivative call on every object
         for k, o in enumerate(objs):
-            f, d = o['it'].interpolate(o['pts'][0][0].copy(), compute_derivative=True)
+            f, d = o['it'].interpolate(o['form'](o['pts'][0][0]), compute_derivative=True)
             kept.append((k, d, np.array(d, copy=True)))
             cmp_grad(o, k, 0, d, 'first-call')
             if not abs(float(np.asarray(f).ravel()[0]) - o['ref'][0][0]) <= 2 * o['ref'][0][3]:
@@ -688,17 +714,17 @@ def _interleave_table(case, acc, rep, C):
         # round 2: cached gradients, other order
         for k in [int(i) for i in rng.permutation(n)]:
             o = objs[k]
-            cmp_grad(o, k, 0, o['it'].gradient(o['pts'][0][0].copy()), 'cached-gradient')
+            cmp_grad(o, k, 0, o['spy'].gradient(o['form'](o['pts'][0][0])), 'cached-gradient')
         # round 3: move one object to its second point, then ask the others for their (still cached) first point
         for k in range(n):
             o = objs[k]
-            f, d = o['it'].interpolate(o['pts'][1][0].copy(), compute_derivative=True)
+            f, d = o['it'].interpolate(o['form'](o['pts'][1][0]), compute_derivative=True)
             kept.append((k, d, np.array(d, copy=True)))
             cmp_grad(o, k, 1, d, 'second-point')
             for j in range(n):
                 if j != k:
                     p = 1 if j < k else 0
-                    cmp_grad(objs[j], j, p, objs[j]['it'].gradient(objs[j]['pts'][p][0].copy()),
+                    cmp_grad(objs[j], j, p, objs[j]['spy'].gradient(objs[j]['form'](objs[j]['pts'][p][0])),
                              'cached-gradient-after-other-object')
         # training gradients (methods linear in the values): identity with the value of a fresh object
         for k, o in enumerate(objs):
@@ -712,7 +738,8 @@ def _interleave_table(case, acc, rep, C):
                     rep.viol('interleave:training-gradient-identity:%s' % o['m'],
                              '<training_gradients, values>=%r, value of a fresh object %r' % (got, f))
                 # ... and the cached point gradient survives the training-gradient call
-                cmp_grad(o, k, 1, o['it'].gradient(o['pts'][1][0].copy()), 'cached-gradient-after-training-gradients')
+                cmp_grad(o, k, 1, o['spy'].gradient(o['form'](o['pts'][1][0])),
+                         'cached-gradient-after-training-gradients')
         for k, d, dcopy in kept:
             acc.count('obs:returned-array-stable')
             if not np.array_equal(np.asarray(d), dcopy):
@@ -845,31 +872,32 @@ def _cache_table(case, acc, rep, C):
 
     try:
         it = _mk(method, grids, v1, bool(rng.random() < 0.5), opts)
+        spy = _Spy(it, acc)
         # (a) x1, x2, then x1 again
         _, d1 = it.interpolate(shaped(x1), compute_derivative=True)
         d1c = np.array(d1, copy=True)
         cmp(0, d1, 'first-call')
         _, d2 = it.interpolate(shaped(x2), compute_derivative=True)
         cmp(1, d2, 'second-point')
-        cmp(0, it.gradient(shaped(x1)), 'gradient-of-earlier-point')
-        cmp(0, it.gradient(shaped(x1)), 'gradient-repeated')
         acc.count('obs:returned-array-stable')
         if not np.array_equal(np.asarray(d1), d1c):
             rep.viol('cachestate:returned-array-overwritten:InterpND',
-                     '%s: the derivative array returned for x1 was changed by later calls' % method)
+                     '%s: the derivative array returned for x1 was changed by the call for x2' % method)
+        cmp(0, spy.gradient(shaped(x1)), 'gradient-of-earlier-point')
+        cmp(0, spy.gradient(shaped(x1)), 'gradient-repeated')
         # (b) value-only call, then gradient of the same point and of another one
         it.interpolate(shaped(x3))
-        cmp(2, it.gradient(shaped(x3)), 'gradient-after-value-only-call')
+        cmp(2, spy.gradient(shaped(x3)), 'gradient-after-value-only-call')
         it.interpolate(shaped(x2))
-        cmp(0, it.gradient(shaped(x1)), 'gradient-of-other-point-after-value-only-call')
+        cmp(0, spy.gradient(shaped(x1)), 'gradient-of-other-point-after-value-only-call')
         # (c) batched call, then one of its points alone, then the batch in another order
         X = np.array([x1, x2, x3])
         _, D = it.interpolate(X.copy(), compute_derivative=True)
         D = np.asarray(D, dtype=float).reshape(3, nd)
         for p in range(3):
             cmp(p, D[p], 'batched')
-        cmp(1, it.gradient(shaped(x2)), 'gradient-single-after-batched')
-        G = np.asarray(it.gradient(X[::-1].copy()), dtype=float).reshape(3, nd)
+        cmp(1, spy.gradient(shaped(x2)), 'gradient-single-after-batched')
+        G = np.asarray(spy.gradient(X[::-1].copy()), dtype=float).reshape(3, nd)
         for p in range(3):
             cmp(2 - p, G[p], 'gradient-batched-reordered')
         # (d) training gradients between the calls (methods that offer them) must leave the point cache intact
@@ -881,7 +909,7 @@ def _cache_table(case, acc, rep, C):
             if not abs(got - refs[1][0]) <= 4 * refs[1][3] + 8 * R.EPS * float(np.abs(tg * v1).sum()):
                 rep.viol('cachestate:training-gradient-identity:InterpND',
                          '%s: <training_gradients(x2), values>=%r but f(x2)=%r' % (method, got, refs[1][0]))
-            cmp(0, it.gradient(shaped(x1)), 'gradient-after-training-gradients')
+            cmp(0, spy.gradient(shaped(x1)), 'gradient-after-training-gradients')
         # (e) the caller's array is changed in place between interpolate() and gradient()
         for form in ('1d', '2d'):
             if form == '1d' and nd == 1:
@@ -1050,14 +1078,14 @@ def _cache_spline(case, acc, rep, C):
         cmp(0, d1, 'spline-first-call')
         _, d2 = it.evaluate_spline(V[1].copy(), compute_derivative=True)
         cmp(1, d2, 'spline-second-values')
+        acc.count('obs:returned-array-stable')
+        if not np.array_equal(np.asarray(d1), d1c):
+            rep.viol('cachestate:returned-array-overwritten:%s' % method,
+                     'the Jacobian returned for the first values was changed by the call with the second values')
         it.evaluate_spline(V[0].copy())                       # value-only call with the first values again
         cmp(0, it.spline_gradient(), 'spline-gradient-after-value-only-call')
         _, d3 = it.evaluate_spline(V[0].copy(), compute_derivative=True)
         cmp(0, d3, 'spline-first-values-again')
-        acc.count('obs:returned-array-stable')
-        if not np.array_equal(np.asarray(d1), d1c):
-            rep.viol('cachestate:returned-array-overwritten:%s' % method,
-                     'the Jacobian returned for the first values was changed by later calls')
         # values changed in place between two calls
         va = V[0].copy()
         it2 = make()
@@ -1086,7 +1114,7 @@ def required_counters(GENERAL, FIXED, SPLINE):
              'obs:tablemulti:judged-first', 'obs:tablemulti:judged-last', 'obs:tablemulti:revisit',
              'obs:interleave:cached-gradient', 'obs:interleave:cached-gradient-after-other-object',
              'obs:interleave:spline-gradient-after-other-objects', 'obs:interleave:training-gradient-identity',
-             'obs:returned-array-stable', 'obs:ref:complex-step', 'obs:ref:fd7', 'obs:ref:unit-vectors',
+             'obs:returned-array-stable', 'obs:gradient:from-cache', 'obs:gradient:recomputed', 'obs:ref:complex-step', 'obs:ref:fd7', 'obs:ref:unit-vectors',
              'obs:cachestate:gradient-of-earlier-point', 'obs:cachestate:gradient-after-value-only-call',
              'obs:cachestate:gradient-single-after-batched', 'obs:cachestate:gradient-after-inplace-change',
              'obs:cachestate:gradient-after-training-gradients', 'obs:cachestate:semi:gradient-of-earlier-point',
